@@ -31,7 +31,8 @@ META = dict(
     technique="exhaustive enumeration of register-to-layer maps x ordered batches against a per-register reference memory",
     text="Every assignment of up to N registers to up to K fake hardware layers is driven through the real Composite_Hardware "
          "with every ordered batch of distinct registers, alone and followed by every second batch; returned values and all "
-         "layer memories are compared with register-by-register access on the owning layer. The space is finite and is "
+         "layer memories are compared with register-by-register access on the owning layer; sequences of up to 3 (thorough 4) "
+         "batch writes, single writes and reads that write the same values again are enumerated as well. The space is finite and is "
          "completed; the property quantifies over exactly these assignments and orders.",
     note="Values are distinct integers (the composite never inspects values). A register appears at most once per batch; "
          "batches are passed as lists, as the engine does. Fake layers do not fail.",
@@ -162,7 +163,9 @@ def reg_name(i: int) -> str:
     return f"R{i}"
 
 
-def write_value(op_index: int, pos: int, i: int) -> int:
+def write_value(op_index: int, pos: int, i: int, vsel=None) -> int:
+    if vsel is not None:                                 # part C: values repeat across operations
+        return 7000 + 10 * vsel + i
     return 1000 * (op_index + 1) + 10 * pos + i
 
 
@@ -194,8 +197,9 @@ def run_scenario(sc, trace=None):
     say = trace.append if tracing else None
     if tracing:
         say(f"registers -> layers: { {reg_name(i): f'L{owner[i]}' for i in range(n)} }  directions: {dirs}  layer kind: {sc['kind']}")
-    for k, (code, batch) in enumerate(sc["ops"]):
-        batch = list(batch)
+    for k, op in enumerate(sc["ops"]):
+        code, batch = op[0], list(op[1])
+        vsel = op[2] if len(op) > 2 else None
         pos = f"op{k + 1}"
         shp = shape(batch, owner) if code in "RW" else "single"
         names = [reg_name(i) for i in batch]
@@ -207,12 +211,12 @@ def run_scenario(sc, trace=None):
             if code == "R":
                 got = comp.read_batch([regs[i] for i in batch])
             elif code == "W":
-                values = [write_value(k, p, i) for p, i in enumerate(batch)]
+                values = [write_value(k, p, i, vsel) for p, i in enumerate(batch)]
                 comp.write_batch(values, [regs[i] for i in batch])
             elif code == "r":
                 got = comp.read(regs[batch[0]])
             elif code == "w":
-                values = [write_value(k, 0, batch[0])]
+                values = [write_value(k, 0, batch[0], vsel)]
                 comp.write(values[0], regs[batch[0]])
             else:
                 raise HarnessError(f"unknown op {code}")
@@ -286,6 +290,16 @@ def scenarios_of(item):
         for op1 in singles:
             for op2 in singles:
                 yield dict(base, ops=[op1, op2])
+    elif part == "C":
+        # repeated values across operations: batch and single writes of one of two values per register, and reads, in every
+        # order (a layer that remembers what it wrote must not skip a later write of the same value)
+        alpha = [["W", list(b), v] for b in selections(writable) if b for v in (0, 1)]
+        alpha += [["w", [i], v] for i in writable for v in (0, 1)]
+        alpha += [["R", list(readable)]]
+        for m in range(2, SEQ_C + 1):
+            for ops in itertools.product(alpha, repeat=m):
+                if sum(1 for o in ops if o[0] in "Ww") >= 2:
+                    yield dict(base, ops=[list(o) for o in ops])
     else:
         for op in singles:
             yield dict(base, ops=[op])
@@ -307,8 +321,10 @@ def work_item(item):
         res, calls = run_scenario(sc)
         stats["scenarios"] += 1
         stats["calls"] += calls
-        shapes = [shape(b, owner) if c in "RW" else "single" for c, b in sc["ops"]]
-        for c, s in zip((c for c, _ in sc["ops"]), shapes):
+        shapes = [shape(o[1], owner) if o[0] in "RW" else "single" for o in sc["ops"]]
+        if item[0] == "C":
+            stats["repeated"] = stats.get("repeated", 0) + 1
+        for c, s in zip((o[0] for o in sc["ops"]), shapes):
             key = f"{c}:{s}"
             stats["shapes"][key] = stats["shapes"].get(key, 0) + 1
         if "interleaved" in shapes:
@@ -334,7 +350,14 @@ def items_for(N, K):
             for dirs in itertools.product("BRW", repeat=n):
                 for kind in ("loop", "native"):
                     out.append(("B", owner, dirs, kind, K))
+    for n in range(1, min(N, 2) + 1):                    # part C: repeated values, operation sequences up to SEQ_C
+        for owner in itertools.product(range(min(K, 2)), repeat=n):
+            for kind in ("loop", "native"):
+                out.append(("C", owner, ("B",) * n, kind, K))
     return out
+
+
+SEQ_C = 3
 
 
 def _det_probe(sc):
@@ -344,7 +367,9 @@ def _det_probe(sc):
 
 
 def run(ctx):
+    global SEQ_C
     N, K = (3, 3) if ctx.quick else (4, 4)
+    SEQ_C = 3 if ctx.quick else 4
     ctx.prove_deterministic(_det_probe, [
         dict(owner=[0, 1, 0], dirs=["B", "B", "B"], kind="loop", layers=K, ops=[["R", [0, 1, 2]], ["W", [2, 1, 0]]]),
         dict(owner=[1, 0, 1], dirs=["B", "R", "W"], kind="native", layers=K, ops=[["W", [2, 0]], ["R", [1, 0]]]),
@@ -353,6 +378,9 @@ def run(ctx):
     items = items_for(N, K)
     results = ctx.pmap(work_item, items, chunk=1)
     tot = dict(scenarios=0, calls=0, nontrivial=0)
+    repeated = sum(st.get("repeated", 0) for _, st in results)
+    if repeated < 1000:
+        raise HarnessError("part C (repeated values across operations) was not exercised")
     shapes, counts, samples = {}, {}, []
     for item, (viol, stats) in zip(items, results):
         for k in tot:
@@ -371,13 +399,15 @@ def run(ctx):
     n_maps = sum(K ** n for n in range(N + 1))
     ctx.coverage.update(
         evaluations=tot["calls"], scenarios=tot["scenarios"], distinct_nontrivial=tot["nontrivial"],
-        max_registers=N, layers=K, register_to_layer_maps=n_maps, work_items=len(items),
+        max_registers=N, layers=K, sequences_with_repeated_values=repeated, max_sequence_length_part_C=SEQ_C, register_to_layer_maps=n_maps, work_items=len(items),
         ordered_selections_of_max_registers=len(selections(range(N))), operations_by_class=dict(sorted(shapes.items())),
         violations_per_signature=dict(sorted(counts.items())),
         rule="part A: n <= N registers (direction Both) x every map onto K layers x {loop, native} fake layers x every sequence of one or "
              "two operations, each read_batch or write_batch on any ordered selection of distinct registers; part B: every direction "
              "vector in {Read,Write,Both}^n x every map x every permitted single batch, every single read/write, and single/batch "
-             "round trips; non-trivial = distinct scenarios containing a batch that spans >= 2 layers in an order different from the "
+             "round trips; part C: <= 2 registers (Both) on <= 2 layers x every sequence of 2..SEQ_C operations out of {write_batch on "
+             "any ordered non-empty selection with value set 0 or 1, single write of value 0 or 1, read_batch of all} with at least "
+             "two writes, so that the same value is written again after any other operation; non-trivial = distinct scenarios containing a batch that spans >= 2 layers in an order different from the "
              "order grouped by layer",
         samples=samples, exhaustive=True,
         explanation="all work items completed; every scenario of the stated space was executed on fresh real objects",
@@ -385,7 +415,7 @@ def run(ctx):
     ctx.assumptions += [
         "a register occurs at most once within one batch (the property speaks of duplicates across batches)",
         "batches are passed as lists (engine.py:322, 456); one-shot iterators are not covered",
-        "fake layers never fail; values are distinct integers",
+        "fake layers never fail; values are distinct integers in parts A and B and repeat in part C",
     ]
 
 
